@@ -308,6 +308,12 @@ def event_from_json(event_json: dict) -> Event:
     for field in ("kind", "created_at"):
         if type(event_json.get(field)) is not int:
             raise ValueError(field)
+    tags = event_json.get("tags", [])
+    if not isinstance(tags, list) or not all(
+        isinstance(tag, (list, tuple)) for tag in tags
+    ):
+        # a tag that is a string would be served as a list of its characters
+        raise ValueError("tags")
     return Event(**event_json)
 
 
